@@ -188,6 +188,15 @@ func c15One(c *fw.Ctx, kind string, src []byte) {
 			}); sig != "" {
 				c.Violate("panic/Fprint-into-shared-fileset", sig, "corruption="+kind+"\n"+detail, string(src))
 			}
+			// one FileRestorer (reset by every RestoreFile) prints the tree and a copy of it
+			if sig, detail := fw.Try(func() {
+				fr := decorator.NewRestorer().FileRestorer()
+				var b1, b2 bytes.Buffer
+				_ = fr.Fprint(&b1, f)
+				_ = fr.Fprint(&b2, dst.Clone(f).(*dst.File))
+			}); sig != "" {
+				c.Violate("panic/Fprint-with-reused-FileRestorer", sig, "corruption="+kind+"\n"+detail, string(src))
+			}
 			c.Count("printed_into_shared_fileset", 1)
 		}
 	}
